@@ -147,6 +147,13 @@ def cases(tier, seed, shard, nshards):
 class Box:
     def __init__(self, head_mode="ok"):
         self.root = os.path.realpath(tempfile.mkdtemp(prefix="vf-C29-", dir=SANDBOX_BASE))
+        try:
+            self._build(head_mode)
+        except BaseException:
+            shutil.rmtree(self.root, ignore_errors=True)
+            raise
+
+    def _build(self, head_mode):
         deep = self.root
         self.sentinels = []
         self.sentinel_set = set()
